@@ -39,11 +39,13 @@ type Enc struct {
 	usedStr   map[string]bool
 	extras    []string
 	appCache  map[string]T
+	wfDone    map[string]bool
+	verAlloc  map[string]T // state-array version -> allocation counter when it was created
 }
 
 func newEnc(p *Program) *Enc {
 	return &Enc{prog: p, decls: map[string]string{}, defs: map[string]string{}, facts: map[string][]string{},
-		stateSort: map[string]Sort{}, assumed: map[string]bool{}, usedStr: map[string]bool{}}
+		stateSort: map[string]Sort{}, verAlloc: map[string]T{}, wfDone: map[string]bool{}, assumed: map[string]bool{}, usedStr: map[string]bool{}}
 }
 
 func (e *Enc) note(format string, args ...interface{}) {
